@@ -14,7 +14,7 @@ CHECKS={
         "Trusted: the per-period decomposition of the minimum over placements (cross-checked by the literal enumeration stage) and the assumption that a reservation delivers exactly its budget per period.",
         "DESIGN.md section 4 (C09)"),
  "C10":("property-based testing (proptest): generated nested arrival models and generated admissible event sequences vs. window counting",
-        "Generated nested arrival specs and, per case, the densest plus several generated admissible event sequences (semantics written from the models' documentation, independent of number_arrivals); every window of every length is counted and compared with number_arrivals; plus zero-at-zero, monotonicity, attainment and sub-additivity for Periodic/Sporadic, and jitter composition (pointwise and against twice-delayed sequences). Exploration.",
+        "Generated nested arrival specs and, per case, the densest plus several generated admissible event sequences (semantics written from the models' documentation, independent of number_arrivals); every window of every length is counted and compared with number_arrivals; plus zero-at-zero, monotonicity, attainment and sub-additivity for Periodic/Sporadic, and jitter composition (pointwise and against twice-delayed sequences). Further sub-checks: scale invariance at large values, recorded traces (the curve inferred by from_trace must bound the trace itself), and histories in which one Curve object is queried and eagerly extended in a generated order (it must keep bounding the sequences of its original prefix). Exploration.",
         "Trusted: the harness' reading of which sequences each model documents as admissible (arr.rs events()).",
         "DESIGN.md section 4 (C10), 3.1"),
  "C11":("property-based testing (proptest): generated arrival/request bounds vs. brute-force increase points",
@@ -42,19 +42,19 @@ CHECKS={
         "Trusted: the component models as black boxes (C10/C14).",
         "DESIGN.md section 4 (C16)"),
  "C01":("property-based testing (proptest): generated task sets and generated schedules (release, execution-time, tie-break and non-preemptive-region decisions) vs. an independent slot-by-slot FP scheduler simulation",
-        "For generated task sets (jitter > period, bursts, plateaus, equal priorities, segment layouts) every Ok(R) of the four FP analyses is confronted with the canonical adversary schedule and several generated legal schedules in a simulator that knows nothing about busy windows; any job responding later than R is a violation. The bound is attained exactly in ~98 % of the Ok cases (measured label), so an analysis that became optimistic by one tick on such inputs is caught. Exploration: cannot show absence.",
+        "For generated task sets (jitter > period, bursts, plateaus, equal priorities, segment layouts) every Ok(R) of the four FP analyses is confronted with the canonical adversary schedule and several generated legal schedules in a simulator that knows nothing about busy windows; any job responding later than R is a violation. The bound is attained exactly in ~98 % of the Ok cases (measured label), so an analysis that became optimistic by one tick on such inputs is caught. A second sub-check runs the RBF-taking analyses (preemptive, floating) on wcet::Multiframe cost models incl. zero-cost frames, with per-job costs in the simulation taken from the frames. Exploration: cannot show absence.",
         "Trusted: the simulator's scheduling semantics (sim_uni.rs) and the admissibility of the generated release sequences (cross-validated by C10); blocking bound as the property prescribes.",
         "DESIGN.md section 4 (C01), 3.4"),
  "C02":("property-based testing (proptest): generated task sets, deadlines and schedules vs. an independent EDF scheduler simulation",
-        "As C01 for the four EDF analyses with arbitrary relative deadlines (also > period), generated tie-breaks among equal absolute deadlines, per-task phases and later-deadline blockers; bound attained in ~95 % of Ok cases. Exploration.",
+        "As C01 for the four EDF analyses with arbitrary relative deadlines (also > period), generated tie-breaks among equal absolute deadlines, per-task phases and later-deadline blockers; bound attained in ~95 % of Ok cases; multiframe-cost sub-check as C01 (preemptive and floating EDF). Exploration.",
         "Trusted: as C01.",
         "DESIGN.md section 4 (C02), 3.4"),
  "C03":("property-based testing (proptest): generated task sets and schedules vs. an independent FIFO scheduler simulation",
-        "Every job of every task in the canonical dense and several generated schedules must respond within the FIFO bound; bound attained in ~100 % of Ok cases. Exploration.",
+        "Every job of every task in the canonical dense and several generated schedules must respond within the FIFO bound; bound attained in ~100 % of Ok cases; multiframe-cost sub-check as C01 (zero-cost frames, bursts). Exploration.",
         "Trusted: as C01.",
         "DESIGN.md section 4 (C03), 3.4"),
  "C06":("property-based testing (proptest): generated task sets / analyses / limits vs. brute-force evaluation of the published equations over every offset",
-        "The nine analyses are compared (value, Ok/Err and error payload) with a linear-scan evaluation of their equations over every offset A in [0,L) on tabulated RBFs, for generated task sets with jitter, bursts, deadlines of both signs relative to the analysed task, blocking bounds and limits at / just below L and the largest AF. Exploration.",
+        "The nine analyses are compared (value, Ok/Err and error payload) with a linear-scan evaluation of their equations over every offset A in [0,L) on tabulated RBFs, for generated task sets with jitter, bursts, deadlines of both signs relative to the analysed task, blocking bounds and limits at / just below L and the largest AF. Further sub-checks: scale equivariance at large values, and a slow-convergence stratum (utilisation 1 - 2^-k, L up to 7*10^5, more than 10^4 iteration steps) in which FIFO is compared with the linear scan over every offset. Exploration.",
         "Trusted: the harness' transcription of the equations from the doc comments (validated by 0 mismatches on the unchanged tree); RBFs as black boxes.",
         "DESIGN.md section 4 (C06), 3.6"),
  "C18":("property-based testing (proptest), witness search: constructed adversary + generated schedules in the scheduler simulation must attain the bound",
@@ -62,11 +62,11 @@ CHECKS={
         "Trusted: simulator semantics; the adversary construction.",
         "DESIGN.md section 4 (C18), 3.4"),
  "C04":("property-based testing (proptest): generated executor workloads, reservations and scenarios (releases, execution times, budget placements) vs. an independent ROS 2 executor + reservation simulation",
-        "Every Ok(R) of rta_timer / rta_polling_point_callback (chain-free workloads), rta_processing_chain and rta_event_source is confronted with the canonical worst-case scenario and several generated scenarios in a slot-by-slot simulator of the executor model stated in the property; no instance (chains: source arrival to completion of the last callback) may exceed R. The bound is attained in a large share of cases (label). Exploration.",
+        "Every Ok(R) of rta_timer / rta_polling_point_callback (chain-free workloads), rta_processing_chain and rta_event_source is confronted with the canonical worst-case scenario and several generated scenarios in a slot-by-slot simulator of the executor model stated in the property; no instance (chains: source arrival to completion of the last callback) may exceed R. The bound is attained in a large share of cases (label). Constructed scenarios include callbacks that just miss one or two consecutive polling points; a further sub-check uses wcet::Multiframe callback costs. Exploration.",
         "Trusted: the executor model of ros.rs (taken from the property statement), admissibility of generated arrivals (C10) and placements (C09).",
         "DESIGN.md section 4 (C04), 3.5"),
  "C05":("property-based testing (proptest): generated workloads with self-consistent bound vectors (iterated analysis) vs. the ROS 2 executor simulation",
-        "For generated workloads mixing timers, Polled(p) and PolledUnknownPrio callbacks the bound vector is iterated to a fixed point from the WCETs exactly as the property prescribes; then every instance of every callback in the canonical and several generated scenarios must respond within its bound. Exploration.",
+        "For generated workloads mixing timers, Polled(p) and PolledUnknownPrio callbacks the bound vector is iterated to a fixed point from the WCETs exactly as the property prescribes; then every instance of every callback in the canonical, the constructed (one or two callbacks just missing consecutive polling points, so that carried-in and fresh instances meet) and several generated scenarios must respond within its bound. Exploration.",
         "Trusted: as C04; singleton subchains with externally triggered callbacks.",
         "DESIGN.md section 4 (C05), 3.5"),
  "C07":("property-based testing (proptest): generated ROS 2 analysis calls vs. brute-force evaluation of the published inequalities over every offset with a supply-bound function computed from (Q,D,P) alone",
